@@ -309,4 +309,706 @@ Section GraphProofs.
   Proof.
     unfold Graph.build. rewrite add_edges_gedge, add_vertices_gedge. unfold gedge. simpl. tauto.
   Qed.
+  (* ---- removeVertex ------------------------------------------------------ *)
+  Lemma eqb_sym x y : eqb x y = eqb y x.
+  Proof. apply (ObjSetProofs.eqb_sym V eqb eqb_spec). Qed.
+
+  Lemma remove_NoDup l x : NoDup l -> NoDup (ObjSet.remove eqb l x).
+  Proof.
+    intros ND. destruct (In_dec' x l) as [H|H].
+    - pose proof (remove_present V eqb eqb_spec l x H) as P.
+      assert (N : NoDup (x :: ObjSet.remove eqb l x))
+        by (eapply Permutation_NoDup; [symmetry; exact P|exact ND]).
+      inversion N; assumption.
+    - rewrite (remove_absent V eqb eqb_spec l x H). exact ND.
+  Qed.
+
+  Lemma remove_vertex_keys g r :
+    keys (remove_vertex g r) = filter (fun k => negb (eqb k r)) (keys g).
+  Proof.
+    unfold Graph.remove_vertex, keys.
+    induction g as [|[k a] t IH]; simpl; [reflexivity|].
+    destruct (eqb k r); simpl; [exact IH|f_equal; exact IH].
+  Qed.
+
+  Lemma remove_vertex_adj g r x :
+    adj_of (remove_vertex g r) x =
+    if eqb x r then [] else ObjSet.remove eqb (adj_of g x) r.
+  Proof.
+    unfold Graph.remove_vertex.
+    induction g as [|[k a] t IH]; simpl.
+    - destruct (eqb x r); reflexivity.
+    - destruct (eqb k r) eqn:Ekr; simpl.
+      + rewrite IH. destruct (eqb x r) eqn:Exr; [reflexivity|].
+        apply eqb_spec in Ekr. subst k. rewrite eqb_sym, Exr. reflexivity.
+      + destruct (eqb k x) eqn:Ekx.
+        * apply eqb_spec in Ekx. subst x. rewrite Ekr. reflexivity.
+        * exact IH.
+  Qed.
+
+  Lemma remove_vertex_gedge g r v w :
+    wf g -> (gedge (remove_vertex g r) v w <-> gedge g v w /\ v <> r /\ w <> r).
+  Proof.
+    intros [_ [NA _]]. unfold gedge. rewrite remove_vertex_adj.
+    destruct (eqb v r) eqn:E.
+    - apply eqb_spec in E. subst. simpl. tauto.
+    - apply eqb_false in E.
+      rewrite (remove_NoDup_In V eqb eqb_spec (adj_of g v) r w (NA v)). tauto.
+  Qed.
+
+  Lemma remove_vertex_In_keys g r x :
+    In x (keys (remove_vertex g r)) <-> In x (keys g) /\ x <> r.
+  Proof.
+    rewrite remove_vertex_keys, filter_In, negb_true_iff, eqb_false. tauto.
+  Qed.
+
+  Lemma remove_vertex_wf g r : wf g -> wf (remove_vertex g r).
+  Proof.
+    intros W. pose proof W as [ND [NA CL]]. split; [|split].
+    - rewrite remove_vertex_keys. apply (NoDup_filter V). exact ND.
+    - intros v. rewrite remove_vertex_adj. destruct (eqb v r); [constructor|].
+      apply remove_NoDup, NA.
+    - intros v w H. apply remove_vertex_gedge in H; [|exact W].
+      apply remove_vertex_In_keys. split; [apply CL with v|]; tauto.
+  Qed.
+
+  Lemma remove_all_wf lv g : wf g -> wf (fold_left remove_vertex lv g).
+  Proof.
+    revert g. induction lv as [|r t IH]; simpl; intros g W; [exact W|].
+    apply IH, remove_vertex_wf, W.
+  Qed.
+
+  Lemma remove_all_keys lv g x :
+    In x (keys (fold_left remove_vertex lv g)) <-> In x (keys g) /\ ~ In x lv.
+  Proof.
+    revert g. induction lv as [|r t IH]; simpl; intros g; [tauto|].
+    rewrite IH, remove_vertex_In_keys. intuition.
+  Qed.
+
+  Lemma remove_all_gedge lv g v w :
+    wf g ->
+    (gedge (fold_left remove_vertex lv g) v w <-> gedge g v w /\ ~ In v lv /\ ~ In w lv).
+  Proof.
+    revert g. induction lv as [|r t IH]; simpl; intros g W; [tauto|].
+    rewrite IH by (apply remove_vertex_wf, W).
+    rewrite remove_vertex_gedge by exact W. intuition.
+  Qed.
+
+  (* ---- leaves ------------------------------------------------------------ *)
+  Lemma leaves_spec g v :
+    NoDup (keys g) -> (In v (leaves g) <-> In v (keys g) /\ adj_of g v = []).
+  Proof.
+    unfold leaves, keys.
+    induction g as [|[k a] t IH]; simpl; intros ND; [tauto|].
+    inversion ND as [|? ? Hk Ht]; subst. specialize (IH Ht).
+    destruct (eqb k v) eqn:E.
+    - apply eqb_spec in E. subst v.
+      destruct a as [|b a']; simpl.
+      + tauto.
+      + split.
+        * intros H. apply IH in H. destruct H as [H _]. contradiction.
+        * intros [_ H]. discriminate.
+    - apply eqb_false in E.
+      destruct a as [|b a']; simpl; rewrite IH; intuition.
+  Qed.
+
+  Lemma NoDup_map_filter {A B} (f : A -> B) (p : A -> bool) l :
+    NoDup (map f l) -> NoDup (map f (filter p l)).
+  Proof.
+    induction l as [|x t IH]; simpl; intros H; [constructor|].
+    inversion H as [|? ? Hx Ht]; subst.
+    destruct (p x); simpl; [|apply IH; exact Ht].
+    constructor; [|apply IH; exact Ht].
+    intros Hi. apply Hx. apply in_map_iff in Hi. destruct Hi as [y [Hy Hf]].
+    apply filter_In in Hf. apply in_map_iff. exists y. tauto.
+  Qed.
+
+  Lemma leaves_NoDup g : NoDup (keys g) -> NoDup (leaves g).
+  Proof. unfold leaves, keys. apply NoDup_map_filter. Qed.
+
+  Definition next_graph (g : gmap) : gmap := fold_left remove_vertex (leaves g) g.
+
+  Lemma next_wf g : wf g -> wf (next_graph g).
+  Proof. apply remove_all_wf. Qed.
+
+  Lemma next_keys g x : In x (keys (next_graph g)) <-> In x (keys g) /\ ~ In x (leaves g).
+  Proof. apply remove_all_keys. Qed.
+
+  Lemma next_gedge g v w :
+    wf g -> (gedge (next_graph g) v w <-> gedge g v w /\ ~ In w (leaves g)).
+  Proof.
+    intros W. unfold next_graph. rewrite remove_all_gedge by exact W.
+    split; [tauto|]. intros [H Hw]. split; [exact H|split; [|exact Hw]].
+    intros Hv. apply leaves_spec in Hv; [|apply W]. destruct Hv as [_ Hv].
+    unfold gedge in H. rewrite Hv in H. destruct H.
+  Qed.
+
+  Lemma round_perm g : wf g -> Permutation (leaves g ++ keys (next_graph g)) (keys g).
+  Proof.
+    intros W. pose proof W as [ND _].
+    apply NoDup_Permutation.
+    - apply NoDup_app_intro.
+      + apply leaves_NoDup, ND.
+      + apply next_wf, W.
+      + intros x H1 H2. apply next_keys in H2. tauto.
+    - exact ND.
+    - intros x. rewrite in_app_iff, next_keys, leaves_spec by exact ND.
+      destruct (In_dec' x (leaves g)) as [H|H].
+      + pose proof H as H'. apply leaves_spec in H'; [|exact ND]. tauto.
+      + rewrite leaves_spec in H by exact ND. tauto.
+  Qed.
+
+  Lemma round_length g :
+    wf g -> List.length (leaves g) + List.length (next_graph g) = List.length g.
+  Proof.
+    intros W. pose proof (Permutation_length (round_perm g W)) as H.
+    rewrite app_length in H. unfold keys in H. rewrite !map_length in H. exact H.
+  Qed.
+
+  (* ---- the sort loop as a relation -------------------------------------- *)
+  Variable ltb : V -> V -> bool.
+  Notation sort_loop := (sort_loop eqb ltb).
+  Notation sort := (sort eqb ltb).
+  Notation isort := (isort ltb).
+
+  Inductive sorted_as : gmap -> list (list V) -> cyc_err V -> Prop :=
+  | sa_nil : sorted_as [] [] None
+  | sa_cyc : forall g, g <> [] -> leaves g = [] ->
+             sorted_as g [] (Some (isort (keys g), edge_list g))
+  | sa_step : forall g L e, g <> [] -> leaves g <> [] ->
+              sorted_as (next_graph g) L e -> sorted_as g (leaves g :: L) e.
+
+  Lemma sort_loop_acc f : forall g acc,
+    sort_loop f g acc =
+    match sort_loop f g [] with Some (L, e) => Some (acc ++ L, e) | None => None end.
+  Proof.
+    induction f as [|f IH]; intros g acc; destruct g as [|p t]; simpl;
+      try (rewrite app_nil_r; reflexivity); try reflexivity.
+    destruct (leaves (p :: t)) as [|l0 lv] eqn:EL.
+    - rewrite app_nil_r. reflexivity.
+    - rewrite (IH _ (acc ++ [l0 :: lv])), (IH _ [l0 :: lv]).
+      destruct (Graph.sort_loop eqb ltb f _ []) as [[L e]|]; [|reflexivity].
+      rewrite <- app_assoc. reflexivity.
+  Qed.
+
+  Lemma sort_loop_sorted_as f : forall g L e,
+    sort_loop f g [] = Some (L, e) -> sorted_as g L e.
+  Proof.
+    induction f as [|f IH]; intros g L e H; destruct g as [|p t]; simpl in H;
+      try discriminate; try (inversion H; subst; constructor).
+    destruct (leaves (p :: t)) as [|l0 lv] eqn:EL.
+    - inversion H; subst. apply sa_cyc; [discriminate|exact EL].
+    - rewrite sort_loop_acc in H.
+      destruct (Graph.sort_loop eqb ltb f _ []) as [[L' e']|] eqn:ES; [|discriminate].
+      inversion H; subst. simpl. rewrite <- EL.
+      apply sa_step; [discriminate|rewrite EL; discriminate|].
+      apply IH. unfold next_graph. rewrite EL. exact ES.
+  Qed.
+
+  Lemma sort_loop_total f : forall g,
+    wf g -> List.length g <= f -> exists L e, sort_loop f g [] = Some (L, e).
+  Proof.
+    induction f as [|f IH]; intros g W Hl; destruct g as [|p t]; simpl in *;
+      try (eexists; eexists; reflexivity); try lia.
+    destruct (leaves (p :: t)) as [|l0 lv] eqn:EL; [eexists; eexists; reflexivity|].
+    rewrite sort_loop_acc.
+    pose proof (round_length (p :: t) W) as RL. rewrite EL in RL. simpl in RL.
+    destruct (IH (next_graph (p :: t))) as [L [e HS]].
+    - apply next_wf, W.
+    - lia.
+    - unfold next_graph in HS. rewrite EL in HS. rewrite HS. eexists; eexists; reflexivity.
+  Qed.
+
+  Lemma sort_total g : wf g -> exists L e, sort g = Some (L, e).
+  Proof. intros W. apply sort_loop_total; [exact W|lia]. Qed.
+
+  Lemma sort_sorted_as g L e : sort g = Some (L, e) -> sorted_as g L e.
+  Proof. apply sort_loop_sorted_as. Qed.
+
+  (* the ids named by the error ([] when there is none) *)
+  Definition err_ids (e : cyc_err V) : list V :=
+    match e with Some (ids, _) => ids | None => [] end.
+  (* ---- insertion sort ---------------------------------------------------- *)
+  Lemma insert_perm x l : Permutation (insert ltb x l) (x :: l).
+  Proof.
+    induction l as [|h t IH]; simpl; [reflexivity|].
+    destruct (ltb x h); [reflexivity|].
+    etransitivity; [apply perm_skip; exact IH|apply perm_swap].
+  Qed.
+
+  Lemma isort_perm l : Permutation (isort l) l.
+  Proof.
+    induction l as [|h t IH]; simpl; [reflexivity|].
+    etransitivity; [apply insert_perm|apply perm_skip; exact IH].
+  Qed.
+
+  Lemma isort_In l x : In x (isort l) <-> In x l.
+  Proof.
+    split; apply Permutation_in; [apply isort_perm|symmetry; apply isort_perm].
+  Qed.
+
+  (* ---- partition --------------------------------------------------------- *)
+  Lemma sa_partition g L e :
+    wf g -> sorted_as g L e ->
+    Permutation (concat L ++ err_ids e) (keys g) /\ Forall (fun l => l <> []) L.
+  Proof.
+    intros W H. induction H as [|g Hne Hlv|g L e Hne Hlv H IH].
+    - simpl. split; constructor.
+    - simpl. split; [apply isort_perm|constructor].
+    - destruct (IH (next_wf g W)) as [P F]. split.
+      + simpl. rewrite <- app_assoc.
+        etransitivity; [apply Permutation_app_head; exact P|apply round_perm; exact W].
+      + constructor; assumption.
+  Qed.
+
+  Lemma nth_In_concat {A} (L : list (list A)) i v : In v (nth i L []) -> In v (concat L).
+  Proof.
+    revert i. induction L as [|l t IH]; intros i H; destruct i; simpl in *;
+      try contradiction; apply in_app_iff; [left; exact H|right; eapply IH; exact H].
+  Qed.
+
+  Lemma sa_member_key g L e i v :
+    wf g -> sorted_as g L e -> In v (nth i L []) -> In v (keys g).
+  Proof.
+    intros W H Hv. destruct (sa_partition g L e W H) as [P _].
+    eapply Permutation_in; [exact P|]. apply in_app_iff. left. eapply nth_In_concat. exact Hv.
+  Qed.
+
+  Lemma sa_err_key g L e v :
+    wf g -> sorted_as g L e -> In v (err_ids e) -> In v (keys g).
+  Proof.
+    intros W H Hv. destruct (sa_partition g L e W H) as [P _].
+    eapply Permutation_in; [exact P|]. apply in_app_iff. right. exact Hv.
+  Qed.
+
+  (* ---- every dependency lies in a strictly earlier layer ----------------- *)
+  Lemma sa_order g L e :
+    wf g -> sorted_as g L e ->
+    forall i v w, In v (nth i L []) -> gedge g v w -> exists j, j < i /\ In w (nth j L []).
+  Proof.
+    intros W H. induction H as [|g Hne Hlv|g L e Hne Hlv H IH]; intros i v w Hv Hvw.
+    - destruct i; destruct Hv.
+    - destruct i; destruct Hv.
+    - destruct i as [|i]; simpl in Hv.
+      + apply leaves_spec in Hv; [|apply W]. destruct Hv as [_ Hv].
+        unfold gedge in Hvw. rewrite Hv in Hvw. destruct Hvw.
+      + destruct (In_dec' w (leaves g)) as [Hw|Hw].
+        * exists 0. split; [lia|exact Hw].
+        * destruct (IH (next_wf g W) i v w Hv) as [j [Hj Hwj]].
+          -- apply next_gedge; [exact W|]. split; assumption.
+          -- exists (S j). split; [lia|exact Hwj].
+  Qed.
+
+  (* ---- earliest layer: a dependency in the layer just before ------------- *)
+  Lemma sa_minimal g L e :
+    wf g -> sorted_as g L e ->
+    forall i v, In v (nth (S i) L []) -> exists w, gedge g v w /\ In w (nth i L []).
+  Proof.
+    intros W H. induction H as [|g Hne Hlv|g L e Hne Hlv H IH]; intros i v Hv.
+    - destruct Hv.
+    - destruct Hv.
+    - simpl in Hv. destruct i as [|i].
+      + assert (Hv' : In v (leaves (next_graph g))).
+        { inversion H; subst; simpl in Hv; try contradiction. exact Hv. }
+        apply leaves_spec in Hv'; [|apply next_wf, W]. destruct Hv' as [Hk Ha].
+        apply next_keys in Hk. destruct Hk as [Hk Hnl].
+        destruct (adj_of g v) as [|w r] eqn:EA.
+        * exfalso. apply Hnl. apply leaves_spec; [apply W|]. split; assumption.
+        * exists w. assert (Hvw : gedge g v w) by (unfold gedge; rewrite EA; left; reflexivity).
+          split; [exact Hvw|]. simpl.
+          destruct (In_dec' w (leaves g)) as [Hw|Hw]; [exact Hw|].
+          exfalso. assert (Hn : gedge (next_graph g) v w) by (apply next_gedge; [exact W|split; assumption]).
+          unfold gedge in Hn. rewrite Ha in Hn. destruct Hn.
+      + destruct (IH (next_wf g W) i v Hv) as [w [Hvw Hw]].
+        exists w. split; [|exact Hw]. apply next_gedge in Hvw; [|exact W]. tauto.
+  Qed.
+
+  (* ---- cycles ------------------------------------------------------------ *)
+  Lemma rc_has_succ (E : V -> V -> Prop) v : reaches_cycle E v -> exists y, E v y.
+  Proof.
+    intros [u [R [y [Huy _]]]]. destruct R as [x|x y' z Hxy _]; eauto.
+  Qed.
+
+  Lemma reach_has_succ (E : V -> V -> Prop) x u :
+    reach E x u -> (exists c, E u c) -> exists c, E x c.
+  Proof. intros R Hu. destruct R as [x|x y z Hxy _]; eauto. Qed.
+
+  Lemma reach_transfer (E E' : V -> V -> Prop) x u :
+    (forall a b, E a b -> (exists c, E b c) -> E' a b) ->
+    reach E x u -> (exists c, E u c) -> reach E' x u.
+  Proof.
+    intros T R Hu. induction R as [x|x y z Hxy R IH]; [constructor|].
+    econstructor; [|apply IH; exact Hu].
+    apply T; [exact Hxy|]. eapply reach_has_succ; eauto.
+  Qed.
+
+  Lemma rc_transfer (E E' : V -> V -> Prop) v :
+    (forall a b, E a b -> (exists c, E b c) -> E' a b) ->
+    reaches_cycle E v -> reaches_cycle E' v.
+  Proof.
+    intros T [u [R [y [Huy Ryu]]]].
+    assert (Hu : exists c, E u c) by eauto.
+    exists u. split; [eapply reach_transfer; eauto|].
+    exists y. split.
+    - apply T; [exact Huy|]. eapply reach_has_succ; eauto.
+    - eapply reach_transfer; eauto.
+  Qed.
+
+  Lemma sa_cycles_complete g L e :
+    wf g -> sorted_as g L e ->
+    forall v, reaches_cycle (gedge g) v -> In v (err_ids e).
+  Proof.
+    intros W H. induction H as [|g Hne Hlv|g L e Hne Hlv H IH]; intros v Hv.
+    - apply rc_has_succ in Hv. destruct Hv as [y []].
+    - simpl. apply isort_In. apply rc_has_succ in Hv. destruct Hv as [y Hy].
+      eapply gedge_src_key. exact Hy.
+    - apply (IH (next_wf g W)). eapply rc_transfer; [|exact Hv].
+      intros a b Hab [c Hbc]. apply next_gedge; [exact W|]. split; [exact Hab|].
+      intros Hb. apply leaves_spec in Hb; [|apply W]. destruct Hb as [_ Hb].
+      unfold gedge in Hbc. rewrite Hb in Hbc. destruct Hbc.
+  Qed.
+
+  (* pigeonhole: a list is duplicate free or splits around a repeated element *)
+  Lemma dup_or_nodup (l : list V) :
+    NoDup l \/ exists a l1 l2 l3, l = l1 ++ a :: l2 ++ a :: l3.
+  Proof.
+    induction l as [|x t IH]; [left; constructor|].
+    destruct IH as [ND|[a [l1 [l2 [l3 E]]]]].
+    - destruct (In_dec' x t) as [Hx|Hx].
+      + right. apply in_split in Hx. destruct Hx as [l2 [l3 E]].
+        exists x, [], l2, l3. simpl. rewrite E. reflexivity.
+      + left. constructor; assumption.
+    - right. exists a, (x :: l1), l2, l3. simpl. rewrite E. reflexivity.
+  Qed.
+
+  Fixpoint chain (E : V -> V -> Prop) (p : list V) : Prop :=
+    match p with
+    | x :: ((y :: _) as t) => E x y /\ chain E t
+    | _ => True
+    end.
+
+  Lemma chain_reach (E : V -> V -> Prop) a r : forall l1 x,
+    chain E (x :: l1 ++ a :: r) -> reach E x a.
+  Proof.
+    induction l1 as [|y l1 IH]; intros x H.
+    - simpl in H. destruct H as [H _]. econstructor; [exact H|constructor].
+    - simpl in H. destruct H as [H1 H2]. econstructor; [exact H1|]. apply IH. exact H2.
+  Qed.
+
+  Lemma chain_suffix (E : V -> V -> Prop) l2 : forall l1, chain E (l1 ++ l2) -> chain E l2.
+  Proof.
+    induction l1 as [|x t IH]; intros H; [exact H|].
+    apply IH. simpl in H. destruct (t ++ l2) as [|y r]; [exact I|]. destruct H as [_ H]. exact H.
+  Qed.
+
+  Definition nxt (g : gmap) (x : V) : V := hd x (adj_of g x).
+  Fixpoint walk (g : gmap) (n : nat) (x : V) : list V :=
+    match n with O => [x] | S k => x :: walk g k (nxt g x) end.
+
+  Lemma walk_props g :
+    wf g -> (forall x, In x (keys g) -> adj_of g x <> []) ->
+    forall n x, In x (keys g) ->
+      chain (gedge g) (walk g n x) /\ incl (walk g n x) (keys g)
+      /\ List.length (walk g n x) = S n /\ exists t, walk g n x = x :: t.
+  Proof.
+    intros W NL. induction n as [|n IH]; intros x Hx.
+    - simpl. split; [exact I|split; [|split; [reflexivity|exists []; reflexivity]]].
+      intros y [->|[]]. exact Hx.
+    - assert (Hn : gedge g x (nxt g x)).
+      { unfold gedge, nxt. specialize (NL x Hx). destruct (adj_of g x); [contradiction|left; reflexivity]. }
+      assert (Hk : In (nxt g x) (keys g)) by (destruct W as [_ [_ CL]]; eapply CL; exact Hn).
+      destruct (IH (nxt g x) Hk) as [C [I' [Len [t Et]]]].
+      simpl. split; [|split; [|split; [simpl; rewrite Len; reflexivity|eexists; reflexivity]]].
+      + rewrite Et in *. split; [exact Hn|exact C].
+      + intros y [->|Hy]; [exact Hx|apply I'; exact Hy].
+  Qed.
+
+  Lemma all_succ_cycle g :
+    wf g -> (forall x, In x (keys g) -> adj_of g x <> []) ->
+    forall v, In v (keys g) -> reaches_cycle (gedge g) v.
+  Proof.
+    intros W NL v Hv.
+    destruct (walk_props g W NL (List.length (keys g)) v Hv) as [C [Inc [Len [t Et]]]].
+    destruct (dup_or_nodup (walk g (List.length (keys g)) v)) as [ND|[a [l1 [l2 [l3 E]]]]].
+    - pose proof (NoDup_incl_length ND Inc) as H. lia.
+    - rewrite E in C. exists a. split.
+      + destruct l1 as [|x l1].
+        * simpl in E. rewrite Et in E. inversion E. constructor.
+        * simpl in E. rewrite Et in E. inversion E. subst x.
+          apply chain_reach with (r := l2 ++ a :: l3) (l1 := l1). exact C.
+      + apply chain_suffix in C. destruct l2 as [|y l2].
+        * simpl in C. destruct C as [C _]. exists a. split; [exact C|constructor].
+        * simpl in C. destruct C as [C1 C2]. exists y. split; [exact C1|].
+          apply chain_reach with (r := l3) (l1 := l2). exact C2.
+  Qed.
+
+  Lemma sa_cycles_sound g L e :
+    wf g -> sorted_as g L e ->
+    forall v, In v (err_ids e) -> reaches_cycle (gedge g) v.
+  Proof.
+    intros W H. induction H as [|g Hne Hlv|g L e Hne Hlv H IH]; intros v Hv.
+    - destruct Hv.
+    - simpl in Hv. apply (proj1 (isort_In _ _)) in Hv. apply all_succ_cycle; [exact W| |exact Hv].
+      intros x Hx Ha.
+      assert (Hl : In x (leaves g)) by (apply leaves_spec; [apply W|split; assumption]).
+      rewrite Hlv in Hl. destruct Hl.
+    - eapply reaches_cycle_mono; [|apply (IH (next_wf g W)); exact Hv].
+      intros a b Hab. apply next_gedge in Hab; [|exact W]. tauto.
+  Qed.
+
+  Lemma sa_cycles g L e :
+    wf g -> sorted_as g L e ->
+    forall v, In v (err_ids e) <-> reaches_cycle (gedge g) v.
+  Proof.
+    intros W H v. split; [apply sa_cycles_sound with L|apply sa_cycles_complete with L]; assumption.
+  Qed.
+
+  (* the error is present exactly when something is left over *)
+  Lemma sa_err_nonempty g L e : sorted_as g L e -> e <> None -> err_ids e <> [].
+  Proof.
+    intros H. induction H as [|g Hne Hlv|g L e Hne Hlv H IH]; intros He.
+    - contradiction.
+    - simpl. destruct g as [|[k a] t]; [contradiction|]. intros E.
+      assert (Hk : In k (isort (keys ((k, a) :: t)))) by (apply isort_In; left; reflexivity).
+      rewrite E in Hk. destruct Hk.
+    - apply IH. exact He.
+  Qed.
+  (* ---- the order on vertices --------------------------------------------- *)
+  Hypothesis ltb_irrefl : forall x, ltb x x = false.
+  Hypothesis ltb_trans : forall x y z, ltb x y = true -> ltb y z = true -> ltb x z = true.
+  Hypothesis ltb_total : forall x y, x <> y -> ltb x y = true \/ ltb y x = true.
+
+  Definition lt (a b : V) : Prop := ltb a b = true.
+
+  Lemma insert_sorted x l :
+    StronglySorted lt l -> ~ In x l -> StronglySorted lt (insert ltb x l).
+  Proof.
+    induction l as [|h t IH]; simpl; intros S Hx.
+    - constructor; constructor.
+    - inversion S as [|? ? St Fh]; subst.
+      destruct (ltb x h) eqn:E.
+      + constructor; [exact S|]. constructor; [exact E|].
+        rewrite Forall_forall in *. intros y Hy. eapply ltb_trans; [exact E|apply Fh; exact Hy].
+      + constructor.
+        * apply IH; [exact St|]. intros H. apply Hx. right. exact H.
+        * rewrite Forall_forall in *. intros y Hy.
+          apply (Permutation_in _ (insert_perm x t)) in Hy. destruct Hy as [<-|Hy]; [|apply Fh; exact Hy].
+          destruct (ltb_total x h) as [H|H]; [|congruence|exact H].
+          intros ->. apply Hx. left. reflexivity.
+  Qed.
+
+  Lemma isort_sorted l : NoDup l -> StronglySorted lt (isort l).
+  Proof.
+    induction l as [|h t IH]; simpl; intros ND; [constructor|].
+    inversion ND as [|? ? Hh Ht]; subst.
+    apply insert_sorted; [apply IH; exact Ht|]. rewrite isort_In. exact Hh.
+  Qed.
+
+  Lemma sorted_unique l1 : forall l2,
+    StronglySorted lt l1 -> StronglySorted lt l2 ->
+    (forall x, In x l1 <-> In x l2) -> l1 = l2.
+  Proof.
+    induction l1 as [|a t1 IH]; intros l2 S1 S2 H.
+    - destruct l2 as [|b t2]; [reflexivity|]. exfalso. apply (H b). left. reflexivity.
+    - destruct l2 as [|b t2]; [exfalso; apply (H a); left; reflexivity|].
+      inversion S1 as [|? ? S1' F1]; inversion S2 as [|? ? S2' F2]; subst.
+      rewrite Forall_forall in F1, F2.
+      assert (Eab : a = b).
+      { destruct (proj1 (H a) (or_introl eq_refl)) as [E|Ha]; [symmetry; exact E|].
+        destruct (proj2 (H b) (or_introl eq_refl)) as [E|Hb]; [exact E|].
+        exfalso. pose proof (ltb_trans _ _ _ (F1 b Hb) (F2 a Ha)) as C.
+        rewrite ltb_irrefl in C. discriminate. }
+      subst b. f_equal. apply IH; [exact S1'|exact S2'|].
+      intros x. split; intros Hx.
+      + destruct (proj1 (H x) (or_intror Hx)) as [E|Hx']; [|exact Hx'].
+        subst x. pose proof (F1 a Hx) as C. unfold lt in C. rewrite ltb_irrefl in C. discriminate.
+      + destruct (proj2 (H x) (or_intror Hx)) as [E|Hx']; [|exact Hx'].
+        subst x. pose proof (F2 a Hx) as C. unfold lt in C. rewrite ltb_irrefl in C. discriminate.
+  Qed.
+
+  Definition set_eq (a b : list V) : Prop := forall x, In x a <-> In x b.
+
+  Lemma isort_set_eq l1 l2 : NoDup l1 -> NoDup l2 -> set_eq l1 l2 -> isort l1 = isort l2.
+  Proof.
+    intros N1 N2 H. apply sorted_unique; try (apply isort_sorted; assumption).
+    intros x. rewrite !isort_In. apply H.
+  Qed.
+
+  (* ---- the result depends only on the vertex set and the edge relation --- *)
+  Definition geq (g g' : gmap) : Prop :=
+    set_eq (keys g) (keys g') /\ (forall v w, gedge g v w <-> gedge g' v w).
+
+  Lemma geq_sym g g' : geq g g' -> geq g' g.
+  Proof. intros [H1 H2]. split; [intros x; symmetry; apply H1|intros v w; symmetry; apply H2]. Qed.
+
+  Lemma adj_nil_iff g v : adj_of g v = [] <-> forall w, ~ gedge g v w.
+  Proof.
+    unfold gedge. split.
+    - intros -> w [].
+    - intros H. destruct (adj_of g v) as [|w r]; [reflexivity|]. exfalso. apply (H w). left. reflexivity.
+  Qed.
+
+  Lemma geq_leaves g g' : wf g -> wf g' -> geq g g' -> set_eq (leaves g) (leaves g').
+  Proof.
+    intros W W' [HK HE] x. rewrite !leaves_spec by (apply W || apply W').
+    rewrite !adj_nil_iff, (HK x). split; intros [H1 H2]; (split; [exact H1|]);
+      intros w Hw; apply (H2 w); apply HE; exact Hw.
+  Qed.
+
+  Lemma geq_next g g' : wf g -> wf g' -> geq g g' -> geq (next_graph g) (next_graph g').
+  Proof.
+    intros W W' G. pose proof (geq_leaves g g' W W' G) as HL. destruct G as [HK HE]. split.
+    - intros x. rewrite !next_keys, (HK x), (HL x). tauto.
+    - intros v w. rewrite !next_gedge by assumption. rewrite (HE v w), (HL w). tauto.
+  Qed.
+
+  Lemma geq_nil g : geq [] g -> g = [].
+  Proof.
+    intros [HK _]. destruct g as [|[k a] t]; [reflexivity|].
+    exfalso. apply (HK k). left. reflexivity.
+  Qed.
+
+  Lemma set_eq_nil l : set_eq [] l -> l = [].
+  Proof. intros H. destruct l as [|x t]; [reflexivity|]. exfalso. apply (H x). left. reflexivity. Qed.
+
+  Lemma sa_geq g L e :
+    sorted_as g L e -> forall g' L' e', wf g -> wf g' -> geq g g' -> sorted_as g' L' e' ->
+    Forall2 set_eq L L' /\ option_map fst e = option_map fst e'.
+  Proof.
+    intros H. induction H as [|g Hne Hlv|g L e Hne Hlv H IH]; intros g' L' e' W W' G H'.
+    - apply geq_nil in G. subst g'. inversion H'; subst; try contradiction. split; constructor.
+    - pose proof (geq_leaves g g' W W' G) as HL. rewrite Hlv in HL.
+      apply set_eq_nil in HL. inversion H'; subst.
+      + apply geq_sym, geq_nil in G. contradiction.
+      + split; [constructor|]. simpl. f_equal.
+        apply isort_set_eq; [apply W|apply W'|apply G].
+      + contradiction.
+    - pose proof (geq_leaves g g' W W' G) as HL. inversion H'; subst.
+      + apply geq_sym, geq_nil in G. contradiction.
+      + exfalso. apply Hlv. match goal with E : leaves g' = [] |- _ => rewrite E in HL end.
+        apply set_eq_nil. intros x. symmetry. apply HL.
+      + match goal with H2 : sorted_as (next_graph g') _ _ |- _ =>
+          destruct (IH _ _ _ (next_wf g W) (next_wf g' W') (geq_next g g' W W' G) H2) as [F E] end.
+        split; [constructor; assumption|exact E].
+  Qed.
+
+  Lemma sa_layers_NoDup g L e : wf g -> sorted_as g L e -> Forall (@NoDup V) L.
+  Proof.
+    intros W H. induction H as [|g Hne Hlv|g L e Hne Hlv H IH]; try constructor.
+    - apply leaves_NoDup, W.
+    - apply IH, next_wf, W.
+  Qed.
+
+  Lemma sa_err_sorted g L e : wf g -> sorted_as g L e -> StronglySorted lt (err_ids e).
+  Proof.
+    intros W H. induction H as [|g Hne Hlv|g L e Hne Hlv H IH]; simpl.
+    - constructor.
+    - apply isort_sorted, W.
+    - apply IH, next_wf, W.
+  Qed.
+
+  Lemma map_isort_eq L L' :
+    Forall2 set_eq L L' -> Forall (@NoDup V) L -> Forall (@NoDup V) L' ->
+    map isort L = map isort L'.
+  Proof.
+    intros F. induction F as [|a b L L' Hab F IH]; intros N N'; [reflexivity|].
+    inversion N; inversion N'; subst. simpl. f_equal; [apply isort_set_eq; assumption|apply IH; assumption].
+  Qed.
+
+  (* ---- HydrateSetList / ReverseSetList ---------------------------------- *)
+  Notation hydrate := (hydrate eqb ltb).
+
+  Lemma hydrate_eq L L' ids ids' :
+    Forall2 set_eq L L' -> Forall (@NoDup V) L -> Forall (@NoDup V) L' -> set_eq ids ids' ->
+    hydrate L ids = hydrate L' ids'.
+  Proof.
+    intros F. induction F as [|a b L L' Hab F IH]; intros N N' HI; [reflexivity|].
+    inversion N; inversion N'; subst. unfold Graph.hydrate in *. simpl.
+    rewrite (IH ltac:(assumption) ltac:(assumption) HI). f_equal.
+    assert (SE : set_eq (filter (fun v => mem v ids) a) (filter (fun v => mem v ids') b)).
+    { intros x. rewrite !filter_In, !mem_In, (Hab x), (HI x). tauto. }
+    assert (EQ : isort (filter (fun v => mem v ids) a) = isort (filter (fun v => mem v ids') b)).
+    { apply isort_set_eq; [apply (NoDup_filter V); assumption|apply (NoDup_filter V); assumption|exact SE]. }
+    destruct (filter (fun v => mem v ids) a) as [|x r];
+      destruct (filter (fun v => mem v ids') b) as [|y r']; simpl.
+    - reflexivity.
+    - apply set_eq_nil in SE. discriminate.
+    - exfalso. apply (SE x). left. reflexivity.
+    - f_equal. exact EQ.
+  Qed.
+
+  Lemma hydrate_all L ids :
+    Forall (fun l => l <> [] /\ forall x, In x l -> In x ids) L -> hydrate L ids = map isort L.
+  Proof.
+    intros F. induction F as [|l L [Hne Hin] F IH]; [reflexivity|].
+    unfold Graph.hydrate in *. simpl. rewrite IH.
+    rewrite (filter_id V) by (intros x Hx; apply mem_In, Hin, Hx).
+    destruct l; [contradiction|reflexivity].
+  Qed.
+
+  Lemma hydrate_sorted L ids :
+    Forall (@NoDup V) L -> Forall (StronglySorted lt) (hydrate L ids).
+  Proof.
+    intros N. induction N as [|l L Hl N IH]; [constructor|].
+    unfold Graph.hydrate in *. simpl. apply Forall_app. split; [|exact IH].
+    assert (S : StronglySorted lt (isort (filter (fun v => mem v ids) l)))
+      by (apply isort_sorted, (NoDup_filter V), Hl).
+    destruct (filter (fun v => mem v ids) l) as [|x r]; [constructor|].
+    constructor; [exact S|constructor].
+  Qed.
+
+  (* what HydrateSetList keeps: per input layer exactly its members that belong
+     to the object set, empty results dropped *)
+  Lemma hydrate_spec L ids :
+    Forall2 set_eq (hydrate L ids)
+            (filter (fun l => negb (is_nil l)) (map (filter (fun v => mem v ids)) L)).
+  Proof.
+    induction L as [|l L IH]; [constructor|].
+    unfold Graph.hydrate in *. simpl.
+    pose proof (isort_In (filter (fun v => mem v ids) l)) as S.
+    destruct (filter (fun v => mem v ids) l) as [|x r]; [exact IH|].
+    constructor; [|exact IH]. intros y. apply S.
+  Qed.
+
+  Lemma reverse_set_list_spec (l : list (list V)) : reverse_set_list l = rev (map (@rev V) l).
+  Proof. unfold reverse_set_list. apply map_rev. Qed.
+
+  Lemma nth_map_isort L i x : In x (nth i (map isort L) []) <-> In x (nth i L []).
+  Proof.
+    revert i. induction L as [|l L IH]; intros i; destruct i; simpl; try tauto.
+    - apply isort_In.
+    - apply IH.
+  Qed.
+  (* ---- the edges listed by the error ------------------------------------- *)
+  Lemma edge_list_In g v w : NoDup (keys g) -> (In (v, w) (edge_list g) <-> gedge g v w).
+  Proof.
+    unfold edge_list, gedge, keys.
+    induction g as [|[k a] t IH]; simpl; intros ND; [tauto|].
+    inversion ND as [|? ? Hk Ht]; subst. specialize (IH Ht).
+    rewrite in_app_iff, in_map_iff. destruct (eqb k v) eqn:E.
+    - apply eqb_spec in E. subst k. split.
+      + intros [[x [Hx Hi]]|H]; [inversion Hx; subst; exact Hi|].
+        exfalso. apply Hk. apply IH in H. apply (gedge_src_key t v w). exact H.
+      + intros H. left. exists w. split; [reflexivity|exact H].
+    - apply eqb_false in E. rewrite <- IH. split; [|tauto].
+      intros [[x [Hx _]]|H]; [inversion Hx; subst; contradiction|exact H].
+  Qed.
+
+  Lemma sa_err_edges g L ids es :
+    wf g -> sorted_as g L (Some (ids, es)) ->
+    forall v w, In (v, w) es <-> gedge g v w /\ In v ids /\ In w ids.
+  Proof.
+    intros W H. remember (Some (ids, es)) as e eqn:Ee.
+    induction H as [|g Hne Hlv|g L e Hne Hlv H IH]; intros v w.
+    - discriminate.
+    - inversion Ee; subst. rewrite edge_list_In by apply W. rewrite !isort_In. split; [|tauto].
+      intros Hvw. split; [exact Hvw|split].
+      + eapply gedge_src_key. exact Hvw.
+      + destruct W as [_ [_ CL]]. eapply CL. exact Hvw.
+    - rewrite (IH (next_wf g W) Ee v w). rewrite next_gedge by exact W.
+      split; [tauto|]. intros [Hvw [Hv Hw]]. split; [|tauto]. split; [exact Hvw|].
+      assert (Hk : In w (keys (next_graph g))).
+      { eapply sa_err_key; [apply next_wf, W|exact H|]. subst e. exact Hw. }
+      apply next_keys in Hk. tauto.
+  Qed.
 End GraphProofs.
